@@ -628,7 +628,7 @@ func (comp) Run(h *core.History, scratch string) *core.Result {
 		case opImmunize:
 			var keys [][]byte
 			for _, x := range a[0].List {
-				keys = append(keys, res.CallerKey(x.Bytes()))
+				keys = append(keys, res.CallerKeyKept(x.Bytes()))
 			}
 			now, fut, hasRes := c.immunize(keys)
 			if hasRes {
